@@ -58,15 +58,17 @@ class Gen:
         if n is None:
             n = self.length()
         out = bytearray()
+        if n >= 3 and r.random() < 0.03:
+            out += '\ufeff'.encode()          # a leading byte order mark is data, never stripped
         while len(out) < n:
             left = n - len(out)
             k = r.random()
             if left >= 4 and k < 0.03:
                 out += '\U0001F600'.encode()
             elif left >= 3 and k < 0.08:
-                out += r.choice(['你', '好', '€', '￿', '퟿', '']).encode()
+                out += r.choice(['你', '好', '€', '￿', '퟿', '', '\ufeff', '\u4e2b', '\u4e00']).encode()
             elif left >= 2 and k < 0.15:
-                out += r.choice(['é', 'ß', '\u0080', '߿']).encode()
+                out += r.choice(['é', 'ß', '\u0080', '߿', '\u012f', '\u0123', '\u012b', '\u0100']).encode()
             elif k < 0.17:
                 out.append(0)              # U+0000 is tolerated outside topics (L5)
             else:
